@@ -6,14 +6,12 @@ import codec_common as cc
 
 def norm_text(v):
     """the documented normalisations, applied to the printed value tree: empty byte string = null, 100 ns time resolution
-    (truncation toward zero), a DataValue always carries an allocated Variant (NaNs are canonicalised by the dumper)"""
+    (rounded down), a DataValue always carries an allocated Variant (NaNs are canonicalised by the dumper)"""
     v = v.replace("(Some [])", "None")
     v = re.sub(r"\(VDataValue (\d+) None ", r"(VDataValue \1 (Some (VVariant 0 0 0 [] None)) ", v)
 
     def t(m):
-        ns = int(m.group(1))
-        q = abs(ns) // 100 * 100
-        return "(Some %d)" % (q if ns >= 0 else -q)
+        return "(Some %d)" % (int(m.group(1)) // 100 * 100)      # rounded down to the 100 ns tick
     # an option holding a bare number is a time (VTime, DataValue timestamps); all other options hold trees or lists
     return re.sub(r"\(Some \(?(-?\d+)\)?\)", t, v)
 
@@ -105,7 +103,7 @@ def run(ctx):
             kinds[k] = kinds.get(k, 0) + 1
     ctx.coverage.update({
         "evaluations": len(obs), "distinct_nontrivial": len(distinct),
-        "rule": "%d values per registered service / extension-object type (%d types) and %d per hand-written codec, generated from the reflect.Type by the seeded PRNG: boundary-biased integers, NaN payloads, nil/empty/short slices and byte strings, DateTime zero/min/max/off-grid, every Variant type id x scalar/nil/empty/1-D/2-D/3-D, random DataValue/DiagnosticInfo/LocalizedText masks, all six NodeID encodings x flag bits, extension objects empty/XML/any registered body; distinct = distinct (type, encoding) with a non-empty encoding" % (n, len({o["ty"] for o in obs}) - 8, 12 * n),
+        "rule": "%d values per registered service / extension-object type (%d types) and %d per hand-written codec, generated from the reflect.Type by the seeded PRNG: boundary-biased integers, NaN payloads, nil/empty/short slices and byte strings, DateTime zero/min/max/off-grid/9999-12-31/1601/before 1677, every Variant type id x scalar/nil/empty/1-D/2-D/3-D, random DataValue/DiagnosticInfo/LocalizedText masks, all six NodeID encodings x flag bits, extension objects empty/XML/any registered body; distinct = distinct (type, encoding) with a non-empty encoding" % (n, len({o["ty"] for o in obs}) - 8, 12 * n),
         "samples": [{k: o[k] for k in ("ty", "val", "hex", "consumed") if k in o} for o in obs[:2] + obs[-2:]],
         "types_hit": len({o["ty"] for o in obs}),
         "variant_shapes_hit": len(kinds),
